@@ -1,9 +1,13 @@
-(* C01 — parsing is faithful.  PARTIAL (lexical layer only): the two spellings of an identifier and the
-   three spellings of a string are proved to yield the same token for every text, for the scanners the
-   regenerated grammar uses; and (build layer, proofs/Counts.v) every list of the returned Database is, element by element and
-   in order, what was built from the blueprints of that kind — nothing dropped, nothing invented, nothing twice.  The rule-level and whole-document theorems (DESIGN 3.6, C01_faithful) are not
-   proved; they rest on the tie (every generated document is parsed by the Coq model and by the
-   implementation and compared on the full dump) and on the independent expected-content oracle. *)
+(* C01 — parsing is faithful.  PARTIAL, two layers proved, one not:
+   - lexical layer: the two spellings of an identifier and the three spellings of a string yield the same token for every text,
+     for the scanners the regenerated grammar uses;
+   - build layer (Counts, Sticky, EnumC, TablesC, ColumnsC, IndexesC, RefsC, SettingsC, ProjGroup): every list of the returned
+     Database is, element by element and in order, what was built from the blueprints of that kind, and every kind of element —
+     tables with their settings and notes, columns, indexes with their subjects, enums with their items, references with their
+     resolved endpoints, groups, sticky notes, the project — holds exactly what its blueprint declares;
+   - NOT proved: the rule level, i.e. that the blueprints the parse actions collect are what the document declares.  It rests on
+     the tie (every generated document is parsed by the Coq model — regenerated grammar interpreted by PP.run, hand-modelled
+     actions — and by the implementation and compared on the full dump) and on the independent expected-content oracle. *)
 From PyDBML Require Import PyStr Py PP LexFacts GenGrammar.
 Import ListNotations.
 
@@ -189,3 +193,173 @@ Theorem C01_tables_have_the_declared_keys_and_column_names_in_order :
          exists db t, h_database h1 d = Some db /\ In t (d_tables db) /\ exists tb, h_table h1 t = Some tb /\ names_of tb = bp_keys bp).
 Proof. exact parser_parse_tables. Qed.
 Print Assumptions C01_tables_have_the_declared_keys_and_column_names_in_order.
+
+(* ---- columns followed from their blueprints to the returned database (proofs/ColumnsC.v) ---- *)
+(* Each table of the parsed database lists — one per column blueprint of its table blueprint, in order — column objects whose
+   name, unique / not null / pk / increment flags, comment and arbitrary properties are exactly the declared ones, whose type is
+   the declared type string or an Enum object (the one found for that string), whose default has the declared kind and value, and
+   which point back to the table.  Column objects are written by nothing but Table.add_column (Rcol), the loop of the Table
+   constructor is followed column by column (cols_loop_full), Database.add(table) and the rest of the build leave them alone
+   (mid-build frame). *)
+From PyDBML Require Import ColumnsC.
+Theorem C01_columns_hold_the_declared_attributes_in_order :
+  forall source allow sq dq h0 h1 d,
+    WW h0 -> (forall t tb, h_table h0 t = Some tb -> NoDup (names_of tb)) ->
+    (forall st, blueprints_of source allow h0 = (h0, Ok st) -> Forall good_table_bp (ps_tables st)) ->
+    parser_parse source allow sq dq h0 = (h1, Ok d) ->
+    exists st db, blueprints_of source allow h0 = (h0, Ok st) /\ h_database h1 d = Some db /\
+      Forall2 (fun bp t => exists dd tb, bp = PVBlue 7 dd /\ h_table h1 t = Some tb /\
+                 Forall2 (fun c cb => exists cc, nth_error h1 c = Some (OColumn cc) /\ col_declares cb cc /\ c_table cc = Some t)
+                         (t_columns tb) (flist_of dd "columns"))
+              (ps_tables st) (d_tables db).
+Proof.
+  intros source allow sq dq h0 h1 d HW Hg Hbp H. destruct (parser_parse_columns _ _ _ _ _ _ _ HW Hg Hbp H) as (st & db & A & B & F).
+  exists st, db. split; [exact A|]. split; [exact B|]. eapply Forall2_impl_s; [|exact F].
+  intros bp t (dd & -> & tb & Htb & FF). exists dd, tb. auto.
+Qed.
+Print Assumptions C01_columns_hold_the_declared_attributes_in_order.
+
+Example C01_column_example :
+  match parser_parse c01_doc false 0 1 [] with
+  | (h1, Ok d) => match h_database h1 d with
+                  | Some db => map (fun t => option_map (fun tb => map (fun c => option_map (fun cc => (c_name cc, c_pk cc, match c_type cc with CTEnum _ => true | _ => false end, c_table cc)) (h_column h1 c)) (t_columns tb)) (h_table h1 t)) (d_tables db)
+                               = [Some [Some (Some (s2l "id"), true, false, Some (nth 0 (d_tables db) 0)); Some (Some (s2l "k"), false, true, Some (nth 0 (d_tables db) 0))];
+                                  Some [Some (Some (s2l "id"), false, false, Some (nth 1 (d_tables db) 0)); Some (Some (s2l "j"), false, false, Some (nth 1 (d_tables db) 0))]]
+                  | None => False
+                  end
+  | _ => False
+  end.
+Proof. vm_compute. reflexivity. Qed.
+
+(* ---- indexes followed from their blueprints to the returned database (proofs/IndexesC.v) ---- *)
+(* Each table of the parsed database lists — one per index blueprint of its table blueprint, in order — index objects with exactly
+   the declared name, unique / pk flags, type and comment, pointing back to the table, whose subjects are, in order, the table's
+   own column object with the declared name (it passed Table.add_index's check) or an expression object with the declared text.
+   Later index steps of the same table write only to the table and to new objects (the frame judgement with the table as its
+   exception), Database.add writes no inner object, the mid-build frame keeps the rest. *)
+From PyDBML Require Import IndexesC.
+Theorem C01_indexes_hold_the_declared_settings_and_subjects_in_order :
+  forall source allow sq dq h0 h1 d,
+    WW h0 -> (forall t tb, h_table h0 t = Some tb -> NoDup (names_of tb)) ->
+    (forall st, blueprints_of source allow h0 = (h0, Ok st) -> Forall good_table_bp (ps_tables st)) ->
+    parser_parse source allow sq dq h0 = (h1, Ok d) ->
+    exists st db, blueprints_of source allow h0 = (h0, Ok st) /\ h_database h1 d = Some db /\
+      Forall2 (fun bp t => exists dd tb, bp = PVBlue 7 dd /\ nth_error h1 t = Some (OTable tb) /\
+                 Forall2 (idx_holds h1 t) (t_indexes tb) (flist_of dd "indexes"))
+              (ps_tables st) (d_tables db).
+Proof.
+  intros source allow sq dq h0 h1 d HW Hg Hbp H. destruct (parser_parse_indexes _ _ _ _ _ _ _ HW Hg Hbp H) as (st & db & A & B & F).
+  exists st, db. split; [exact A|]. split; [exact B|]. eapply Forall2_impl_s; [|exact F].
+  intros bp t (dd & -> & tb & Htb & FF). exists dd, tb. auto.
+Qed.
+Print Assumptions C01_indexes_hold_the_declared_settings_and_subjects_in_order.
+
+Example C01_index_example :
+  let doc := s2l "Table t {
+ a int
+ b int
+ indexes {
+  (a, `lower(b)`) [unique, name: 'ix']
+  b [pk]
+ }
+}" in
+  match parser_parse doc false 0 1 [] with
+  | (h1, Ok d) => match h_database h1 d with
+                  | Some db => map (fun t => option_map (fun tb => map (fun i => option_map (fun ix => (i_name ix, i_unique ix, i_pk ix, i_table ix,
+                                        option_map (map (fun s => match s with SubCol c => option_map c_name (h_column h1 c) | SubExpr x => option_map (fun e => Some (x_text e)) (h_expr h1 x) | SubStr _ => None end)) (i_subjects ix))) (h_index h1 i)) (t_indexes tb)) (h_table h1 t)) (d_tables db)
+                               = [Some [Some (Some (s2l "ix"), true, false, Some (nth 0 (d_tables db) 0), Some [Some (Some (s2l "a")); Some (Some (s2l "lower(b)"))]);
+                                        Some (None, false, true, Some (nth 0 (d_tables db) 0), Some [Some (Some (s2l "b"))])]]
+                  | None => False
+                  end
+  | _ => False
+  end.
+Proof. vm_compute. reflexivity. Qed.
+
+(* ---- references followed from their blueprints to the returned database (proofs/RefsC.v) ---- *)
+(* The references of the parsed database are — one per reference blueprint, in the order parse_blueprint registered them — objects
+   with exactly the declared kind, name, comment and update / delete actions whose two sides are the column lists the blueprint's
+   table and column names resolve to in the returned database (locate_table: by alias, then by schema.name; the columns by name
+   in the located table).  Res / stable are the resolution relation and its stability of C06's proofs (BuildRefs.v). *)
+From PyDBML Require Import BuildRefs RefsC.
+Theorem C01_references_hold_the_declared_kind_actions_and_resolved_endpoints :
+  forall source allow sq dq h0 h1 d,
+    WW h0 -> (forall t tb, h_table h0 t = Some tb -> NoDup (names_of tb)) ->
+    (forall st, blueprints_of source allow h0 = (h0, Ok st) -> Forall good_table_bp (ps_tables st)) ->
+    parser_parse source allow sq dq h0 = (h1, Ok d) ->
+    exists st db, blueprints_of source allow h0 = (h0, Ok st) /\ h_database h1 d = Some db /\
+      Forall2 (fun bp r => exists dd c1 c2 rr, bp = PVBlue 4 dd /\ Res d dd h1 c1 c2 /\ h_reference h1 r = Some rr /\
+                 r_type rr = fstr_of dd "type" /\ r_col1 rr = Some c1 /\ r_col2 rr = Some c2 /\ r_name rr = or_none (fstr_of dd "name") /\
+                 r_comment rr = fstr_of dd "comment" /\ r_on_update rr = fstr_of dd "on_update" /\ r_on_delete rr = fstr_of dd "on_delete")
+              (ps_refs st) (d_refs db).
+Proof.
+  intros source allow sq dq h0 h1 d HW Hg Hbp H. destruct (parser_parse_references _ _ _ _ _ _ _ HW Hg Hbp H) as (st & db & A & B & F).
+  exists st, db. split; [exact A|]. split; [exact B|]. eapply Forall2_impl_s; [|exact F].
+  intros bp r (dd & c1 & c2 & rr & E1 & E2 & E3 & E4). exists dd, c1, c2, rr. unfold refdata_of, data_of in E4. inversion E4. repeat split; assumption.
+Qed.
+Print Assumptions C01_references_hold_the_declared_kind_actions_and_resolved_endpoints.
+
+Example C01_reference_example :
+  match parser_parse c01_doc false 0 1 [] with
+  | (h1, Ok d) => match h_database h1 d with
+                  | Some db => map (fun r => option_map (fun rr => (r_type rr, r_inline rr,
+                                    option_map (map (fun c => option_map c_name (h_column h1 c))) (r_col1 rr),
+                                    option_map (map (fun c => option_map c_name (h_column h1 c))) (r_col2 rr))) (h_reference h1 r)) (d_refs db)
+                               = [Some (Some (s2l ">"), true, Some [Some (Some (s2l "id"))], Some [Some (Some (s2l "id"))]);
+                                  Some (Some (s2l ">"), false, Some [Some (Some (s2l "j"))], Some [Some (Some (s2l "id"))])]
+                  | None => False
+                  end
+  | _ => False
+  end.
+Proof. vm_compute. reflexivity. Qed.
+
+(* ---- the settings of tables and the text of their notes (proofs/SettingsC.v) ---- *)
+(* Each table of the parsed database has exactly the declared name, schema (public when none is written), alias, header colour,
+   comment and arbitrary properties, is not abstract, and its note object holds the declared note text (normalised).  Table
+   objects are written during the build only through their column list, index list and owner field, note objects only through
+   their parent field (relation Rs, typed stores through all of Build.v). *)
+From PyDBML Require Import SettingsC.
+Theorem C01_tables_hold_the_declared_settings_and_note :
+  forall source allow sq dq h0 h1 d,
+    WW h0 -> (forall t tb, h_table h0 t = Some tb -> NoDup (names_of tb)) ->
+    (forall st, blueprints_of source allow h0 = (h0, Ok st) -> Forall good_table_bp (ps_tables st)) ->
+    parser_parse source allow sq dq h0 = (h1, Ok d) ->
+    exists st db, blueprints_of source allow h0 = (h0, Ok st) /\ h_database h1 d = Some db /\
+      Forall2 (fun bp t => exists dd tb nn a tx, bp = PVBlue 7 dd /\ nth_error h1 t = Some (OTable tb) /\
+                 t_name tb = fstr_of dd "name" /\ t_schema tb = Some (match fstr_of dd "schema" with Some s => s | None => K "public" end) /\
+                 t_alias tb = or_none (fstr_of dd "alias") /\ t_header_color tb = fstr_of dd "header_color" /\ t_comment tb = fstr_of dd "comment" /\
+                 t_abstract tb = false /\ t_properties tb = fdict_of dd "properties" /\
+                 nth_error h1 (t_note tb) = Some (ONote nn) /\ n_text nn = tx /\ note_text_of dd "note" = Ok a /\ note_arg_text a = Some tx)
+              (ps_tables st) (d_tables db).
+Proof. exact parser_parse_table_settings. Qed.
+Print Assumptions C01_tables_hold_the_declared_settings_and_note.
+
+(* ---- table groups, the project, and the inline flag of references (proofs/ProjGroup.v) ---- *)
+(* The table groups of the parsed database hold, one per group blueprint and in order, the declared name, comment and colour and
+   the tables the item names were resolved to when the group was built; the references hold the declared inline flag; and when a
+   project blueprint was collected the database has a project with the declared name, items and comment.  These objects are written
+   during the build only through their owner field (relation Rv, typed stores through all of Build.v). *)
+From PyDBML Require Import ProjGroup.
+Theorem C01_groups_project_and_inline_flag_hold_what_was_declared :
+  forall source allow sq dq h0 h1 d,
+    WW h0 -> (forall t tb, h_table h0 t = Some tb -> NoDup (names_of tb)) ->
+    (forall st, blueprints_of source allow h0 = (h0, Ok st) -> Forall good_table_bp (ps_tables st)) ->
+    parser_parse source allow sq dq h0 = (h1, Ok d) ->
+    exists st db, blueprints_of source allow h0 = (h0, Ok st) /\ h_database h1 d = Some db /\
+      Forall2 (fun bp g => exists dd nm items n gg, bp = PVBlue 11 dd /\ fstr_of dd "name" = Some nm /\ h_group h1 g = Some gg /\
+                 g_name gg = nm /\ g_items gg = items /\ g_comment gg = fstr_of dd "comment" /\ g_note gg = n /\ g_color gg = fstr_of dd "color" /\
+                 (exists hk, group_items d (flist_of dd "items") [] hk = (hk, Ok items)))
+              (ps_groups st) (d_table_groups db) /\
+      Forall2 (fun bp r => exists dd rr, bp = PVBlue 4 dd /\ h_reference h1 r = Some rr /\ r_inline rr = fbool_of dd "inline") (ps_refs st) (d_refs db) /\
+      (forall bp, ps_project st = Some bp -> exists p dd nm pp, d_project db = Some p /\ bp = PVBlue 10 dd /\ fstr_of dd "name" = Some nm /\
+         h_project h1 p = Some pp /\ p_name pp = nm /\ p_items pp = fdict_of dd "items" /\ p_comment pp = fstr_of dd "comment").
+Proof.
+  intros source allow sq dq h0 h1 d HW Hg Hbp H. destruct (parser_parse_groups_project_inline _ _ _ _ _ _ _ HW Hg Hbp H) as (st & db & A & B & FG & FR & FP).
+  exists st, db. split; [exact A|]. split; [exact B|]. split; [|split].
+  - eapply Forall2_impl_s; [|exact FG]. intros bp g (dd & nm & items & n & ob & E1 & E2 & E3 & E4 & E5).
+    destruct ob as [t0|c0|i0|rf0|en0|ei0|n0|s0|x0|p0|g0|d0]; try discriminate E4. cbn in E4. inversion E4. exists dd, nm, items, n, g0. unfold h_group. rewrite E3. repeat split; try assumption; try reflexivity.
+  - eapply Forall2_impl_s; [|exact FR]. intros bp r (dd & ob & data & E1 & E2 & E3). destruct ob as [t0|c0|i0|rf0|en0|ei0|n0|s0|x0|p0|g0|d0]; try discriminate E3. cbn in E3. inversion E3.
+    exists dd, rf0. unfold h_reference. rewrite E2. repeat split; try assumption; reflexivity.
+  - intros bp Hp. destruct (FP bp Hp) as (p & Hdp & dd & nm & n & ob & E1 & E2 & E3 & E4). destruct ob as [t0|c0|i0|rf0|en0|ei0|n0|s0|x0|p0|g0|d0]; try discriminate E4. cbn in E4. inversion E4.
+    exists p, dd, nm, p0. unfold h_project. rewrite E3. repeat split; try assumption; reflexivity.
+Qed.
+Print Assumptions C01_groups_project_and_inline_flag_hold_what_was_declared.
